@@ -361,6 +361,8 @@ func (mgr *GCMgr) gc(bkt *Bucket, startChunkID, endChunkID int, merge bool) {
 		vhook.PointI("gc.beforeClear", int64(gc.Src), int64(gc.Dst))
 		if gc.Src != gc.Dst {
 			bkt.datas.chunks[gc.Src].Clear()
+		} else {
+			dstchunk.dropStaleTail()
 		}
 		if gc.Src+1 >= bkt.NextGCChunk {
 			bkt.NextGCChunk = gc.Src + 1
